@@ -242,7 +242,7 @@ kani("models::lookup_contiguous_rejects_p4", ["C19"], kind="bounded", bound="<= 
      fns=[M + "categorical/lookup_contiguous.rs::ContiguousLookupDecoderModel::from_nonzero_fixed_point_probabilities"])
 kani("models::non_contiguous_p4", ["C03", "C05", "C19"], kind="bounded", bound="<= 3 entries, <= 4 symbols, P=4", timeout=1200, tier="thorough",
      fns=[M + "categorical/non_contiguous.rs::NonContiguousCategoricalDecoderModel::{from_symbols_and_nonzero_fixed_point_probabilities,quantile_function}"])
-kani("models::fast_f32_n3_p8", ["C19", "C03", "C20"], kind="bounded", bound="3 f32 entries (all bit patterns)", timeout=1200,
+kani("models::fast_f32_n3_p8", ["C19", "C03", "C20"], kind="bounded", bound="3 f32 entries (all bit patterns)", timeout=7200, tier="thorough",
      fns=[M + "categorical.rs::fast_quantized_cdf", M + "categorical/contiguous.rs::ContiguousCategoricalEntropyModel::from_floating_point_probabilities_fast"],
      text="Ok => model contract (tiling, nonzero, quantile search in bounds, no unreachable_unchecked) for NaN/inf/negative/denormal inputs too")
 kani("models::lazy_vs_eager_f32_n3_p8", ["C05"], kind="bounded", bound="3 non-negative f32 entries", timeout=1800, tier="thorough",
@@ -455,3 +455,8 @@ verus_unit(
         "thm_ll_enc_is_cstep": dict(own=["C06", "C02"], dep=[], text="layer B = layer A: ll_enc on machine values is the mathematical bookkeeping step cstep (whose abstraction is the exact interval step, lemma_bridge)"),
     },
 )
+kani("models::lookup_noncontiguous_fast_counts", ["C19", "C20", "C10"], kind="bounded", bound="3 probabilities, 1..4 symbols, P=4", timeout=900,
+     fns=[M + "categorical/lookup_noncontiguous.rs::NonContiguousLookupDecoderModel::{from_symbols_and_floating_point_probabilities_fast,from_symbol_table,quantile_function}"],
+     text="Ok iff #symbols == #probabilities; every quantile of an accepted model is answered in bounds")
+kani("models::fast_f32_n2_p8", ["C19", "C03", "C20"], kind="bounded", bound="2 f32 entries (all bit patterns)", timeout=1200,
+     fns=[M + "categorical.rs::fast_quantized_cdf", M + "categorical/contiguous.rs::ContiguousCategoricalEntropyModel::from_floating_point_probabilities_fast"])
